@@ -26,6 +26,7 @@ pub struct FnSpec {
     pub at: Vec<(String, String)>,
     pub lettype: BTreeMap<String, String>,
     pub whilelet: BTreeSet<usize>,
+    pub foriter: BTreeSet<usize>,
     pub may_panic: BTreeSet<usize>,
     pub letsplit: Vec<String>,
     pub refop: Vec<String>,
@@ -59,6 +60,16 @@ pub struct LiftSpec {
     pub f: FnSpec,
 }
 
+/// `@derive <file> <Name>..` (R-MACRO-EXPAND): type definition + the derive macro's real `impl ContentHash` output
+#[derive(Default, Debug, Clone)]
+pub struct DeriveSpec {
+    pub file: String,
+    pub names: Vec<String>,
+    pub extra: String,   // hand-written spec fns / lemma for the impl block (single name only); empty = generated from the type definition
+    pub tattrs: String,  // attributes for the type item
+    pub f: FnSpec,       // sub-directives of the generated `hash` fn
+}
+
 #[derive(Debug, Clone)]
 pub enum Item {
     Raw(String),
@@ -69,7 +80,7 @@ pub enum Item {
     Const { file: String, name: String, ensures: String, props: Vec<String>, line: usize },
     /// `@callorder file Type::fn as name(calleeA, calleeB)`: positions of calls in the fn body as spec fns + a proof fn with @ensures
     CallOrder { file: String, path: String, name: String, callees: Vec<String>, f: FnSpec },
-    Derive { file: String, names: Vec<String> },
+    Derive(DeriveSpec),
 }
 
 #[derive(Default, Debug)]
@@ -202,19 +213,34 @@ pub fn parse(text: &str) -> Result<Unit, String> {
     enum Ctx { None, Fn, Type, Lift, Const }
     let mut ctx = Ctx::None;
     let mut in_impl = false;
+    let mut in_derive = false;
     fn cur_fn(unit: &mut Unit, in_impl: bool) -> Option<&mut FnSpec> {
         match unit.items.last_mut()? {
             Item::Fn(f) => Some(f),
             Item::Impl { fns, .. } if in_impl => fns.last_mut(),
             Item::Lift(l) => Some(&mut l.f),
             Item::CallOrder { f, .. } => Some(f),
+            Item::Derive(d) => Some(&mut d.f),
             _ => None,
         }
     }
     for (d, a, body, ln) in dirs {
         let full = if a.is_empty() { body.clone() } else { format!("{}\n{}", a, body) };
         let full_trim = full.trim().to_string();
+        if matches!(d.as_str(), "raw" | "spec" | "type" | "const" | "derive" | "impl" | "endimpl" | "lift" | "endderive") { in_derive = false; }
+        if d == "fn" && in_derive && a.trim() == "hash" { ctx = Ctx::Fn; continue; }
+        if d == "fn" { in_derive = false; }
+        if in_derive && !matches!(ctx, Ctx::Fn) {
+            if let Some(Item::Derive(dv)) = unit.items.last_mut() {
+                match d.as_str() {
+                    "extra" => { dv.extra.push_str(&body); continue; }
+                    "attrs" => { dv.tattrs = full_trim; continue; }
+                    _ => {}
+                }
+            }
+        }
         match d.as_str() {
+            "endderive" => { ctx = Ctx::None; }
             "unit" => unit.name = a,
             "serves" => unit.serves = a.split_whitespace().map(String::from).collect(),
             "prelude" => { for p in a.split_whitespace() { if !unit.prelude.iter().any(|x| x == p) { unit.prelude.push(p.to_string()); } } }
@@ -254,8 +280,11 @@ pub fn parse(text: &str) -> Result<Unit, String> {
             "derive" => {
                 let mut it = a.split_whitespace();
                 let file = it.next().ok_or(format!("line {ln}: @derive file Names.."))?.to_string();
-                let names = it.map(String::from).collect();
-                unit.items.push(Item::Derive { file, names });
+                let names: Vec<String> = it.map(|s| s.trim_end_matches(',').to_string()).filter(|s| !s.is_empty()).collect();
+                if names.is_empty() { return Err(format!("line {ln}: @derive file Names..")); }
+                let f = FnSpec { ret_name: "r".into(), line: ln, file: file.clone(), path: "hash".into(), ..Default::default() };
+                unit.items.push(Item::Derive(DeriveSpec { file, names, f, ..Default::default() }));
+                in_derive = true;
                 ctx = Ctx::None;
             }
             "impl" => {
@@ -368,6 +397,7 @@ pub fn parse(text: &str) -> Result<Unit, String> {
                         f.argtype.insert(n.to_string(), ty.trim().to_string());
                     }
                     "whilelet" => { for k in a.split_whitespace() { f.whilelet.insert(k.parse().map_err(|_| format!("line {ln}: @whilelet K"))?); } }
+                    "foriter" => { for k in a.split_whitespace() { f.foriter.insert(k.parse().map_err(|_| format!("line {ln}: @foriter K"))?); } }
                     "may-panic" => { for k in a.split_whitespace() { f.may_panic.insert(k.parse().map_err(|_| format!("line {ln}: @may-panic K"))?); } }
                     "letsplit" => f.letsplit.extend(a.split_whitespace().map(String::from)),
                     "refop" => f.refop.extend(a.split_whitespace().map(String::from)),
